@@ -492,6 +492,76 @@ def livermoreFinal (incEnergy : α) (incDir : Vec3 α) (binding : Option α) (eD
     | none => ⟨.absorbed, (0 : α), incDir, [electron], b⟩
     | some (secs, eSum) => ⟨.absorbed, (0 : α), incDir, electron :: secs, b - eSum⟩
 
+
+/-! ### atomic relaxation (AtomicRelaxation.hh) -/
+
+/-- `AtomicRelaxTransition`: originating shell, Auger shell (`none` = invalid id: radiative),
+    probability, energy.  Shell ids ≥ number of shells have no transition data. -/
+structure Transition (α : Type) where
+  initial : Nat
+  auger : Option Nat
+  prob : α
+  energy : α
+deriving Inhabited
+
+/-- `sample_transition`: `accum = -ξ; accum += pᵢ; if accum > 0 return i` -/
+def sampleTransitionGo : α → List (Transition α) → Option (Transition α)
+  | _, [] => none
+  | accum, t :: r =>
+    let a := accum + t.prob
+    if Num.gt a (0 : α) then some t else sampleTransitionGo a r
+
+def sampleTransition (ts : List (Transition α)) (u : α) : Option (Transition α) :=
+  sampleTransitionGo (-u) ts
+
+/-- a relaxation secondary: isotropic direction from two uniforms -/
+def relaxSecondary (pid : Nat) (energy u1 u2 : α) : Secondary α :=
+  ⟨some pid, energy,
+    fromSpherical (uniformReal (-(1 : α)) (1 : α) u1) (uniformReal (0 : α) (twoPi : α) u2)⟩
+
+/-- the `while (!vacancies.empty())` loop of `AtomicRelaxation::operator()`.  `stack` is the
+    MiniStack of vacancies (top first), `secs`/`sum` the secondaries written so far and
+    `sum_energy`.  Auger transitions are compared with the ELECTRON cut, radiative ones with the
+    GAMMA cut; `sum_energy` is accumulated only when a secondary is emitted.  `fuel` bounds the
+    iterations (the driver passes 3·|script| + |stack| + 4, enough for any script). -/
+def relaxLoop (shells : List (List (Transition α))) (ecut gcut : α) :
+    Nat → List Nat → List (Secondary α) → α → Script α →
+    Option (List (Secondary α) × α × Script α)
+  | 0, _, _, _, _ => none
+  | _ + 1, [], secs, sum, s => some (secs, sum, s)
+  | fuel + 1, v :: stack, secs, sum, s =>
+    match shells[v]? with
+    | none => relaxLoop shells ecut gcut fuel stack secs sum s
+    | some ts =>
+      match s with
+      | [] => none
+      | u :: s =>
+        match sampleTransition ts u with
+        | none => relaxLoop shells ecut gcut fuel stack secs sum s
+        | some t =>
+          match t.auger with
+          | some a =>
+            if Num.ge t.energy ecut then
+              match s with
+              | u1 :: u2 :: s =>
+                relaxLoop shells ecut gcut fuel (a :: t.initial :: stack)
+                  (secs ++ [relaxSecondary pidElectron t.energy u1 u2]) (sum + t.energy) s
+              | _ => none
+            else relaxLoop shells ecut gcut fuel (a :: t.initial :: stack) secs sum s
+          | none =>
+            if Num.ge t.energy gcut then
+              match s with
+              | u1 :: u2 :: s =>
+                relaxLoop shells ecut gcut fuel (t.initial :: stack)
+                  (secs ++ [relaxSecondary pidGamma t.energy u1 u2]) (sum + t.energy) s
+              | _ => none
+            else relaxLoop shells ecut gcut fuel (t.initial :: stack) secs sum s
+
+/-- `AtomicRelaxation::operator()`: (secondaries, `result.energy`, unread script) -/
+def atomicRelaxation (shells : List (List (Transition α))) (ecut gcut : α) (shell : Nat)
+    (script : Script α) : Option (List (Secondary α) × α × Script α) :=
+  relaxLoop shells ecut gcut (3 * script.length + 5) [shell] [] (0 : α) script
+
 /-! ### the property's own bookkeeping -/
 
 /-- Σ kinetic energies of the secondaries, + 2 m_e c² per positron -/
